@@ -23,7 +23,12 @@ Instances ==
             vols |-> << {0}, {1, 2}, {3} >>],
     i4 |-> [s |-> 4, names |-> << "b", "a" >>,
             prot |-> [a |-> << 1, 1, 1, 1, 1, 1, 1, 1 >>, b |-> << 1, 1, 1, 1, 0, 0, 0, 0, 1, 1 >>],
-            vols |-> << {0}, {1, 2} >>] ]
+            vols |-> << {0}, {1, 2} >>],
+    \* i5: three files of two distinct slices each and ONE recovery block, for the "cyc" menu (contents rotated
+    \* among the names, possibly with one slice corrupted): chains of "holds the content of" (seeded change R15-T14)
+    i5 |-> [s |-> 4, names |-> << "c", "b", "a" >>,
+            prot |-> [a |-> << 1, 2, 1, 2, 2, 1, 2, 1 >>, b |-> << 1, 1, 2, 2, 2, 2, 1, 1 >>, c |-> << 2, 1, 1, 1, 1, 2, 2, 2 >>],
+            vols |-> << {0} >>] ]
 
 I == Instances[Inst]
 S == I.s
@@ -45,6 +50,8 @@ MenuOf(f) ==
   LET d == Prot[f] IN
   IF Positions = "obj"      \* the small menu of the object model (MC_Par2Object): one damage of each kind
   THEN {AbsentV, d, Flip(d, 1), SubSeq(d, 1, Len(d) - 1)} \cup {Prot[g] : g \in NameSetX \ {f}}
+  ELSE IF Positions = "cyc" \* whole contents of the other files, intact or with the first slice corrupted
+  THEN {AbsentV, d} \cup {Prot[g] : g \in NameSetX \ {f}} \cup {Flip(Prot[g], 1) : g \in NameSetX \ {f}}
   ELSE
      {AbsentV, d, << >>}
        \cup {Flip(d, i) : i \in PosOf(d)}
